@@ -36,6 +36,12 @@ type shardLoader interface {
 	drop(filenames ...string)
 }
 
+// shardReloader is implemented by loaders which can load and drop shards in
+// one atomic update of the set of searched shards.
+type shardReloader interface {
+	reload(load, drop []string)
+}
+
 type DirectoryWatcher struct {
 	dir        string
 	timestamps map[string]time.Time
@@ -183,8 +189,14 @@ func (s *DirectoryWatcher) scan() error {
 		log.Printf("[INFO] unloading %d shard(s): %s", len(toDrop), humanTruncateList(toDrop, 5))
 	}
 
-	s.loader.drop(toDrop...)
-	s.loader.load(toLoad...)
+	if r, ok := s.loader.(shardReloader); ok {
+		// Apply both changes as one update, otherwise searches running
+		// between the two see a repository without (some of) its shards.
+		r.reload(toLoad, toDrop)
+	} else {
+		s.loader.drop(toDrop...)
+		s.loader.load(toLoad...)
+	}
 
 	return nil
 }
